@@ -117,6 +117,17 @@ def part2(job):
             g['app'] = {k: v for k, v in g['app'].items() if k != 'b'}
         groups.append(g)
     w = build(loads, apps, groups)
+    if knows.get('exited'):
+        # the application has run before: its programs ended on their own and are EXITED, not STOPPED
+        for ns in ('app:a', 'app:b', 'app:c'):
+            w.apply(('ustart', 0, ns))
+            w.drain()
+            w.apply(('proc', 0, ns, 'run'))
+            w.drain()
+            w.apply(('proc', 0, ns, 'exit_bad'))
+            w.drain()
+        w.round_robin(1)
+        w.drain_observations()
     m = w.sups[requester]
     idents, inst_load, running, node_of = views(w, m)
     res = w.user_rpc(requester, 'start_application', (st, 'app', False))
@@ -266,6 +277,8 @@ def main():
                             jobs.append((loads, dist, st, requester, ids, {}))
                     if loads in ((0, 0, 0, 0), (30, 0, 0, 0)):
                         jobs.append((loads, dist, st, 0, '*', {'lack_b': (1,)}))
+                    if loads in ((0, 0, 0, 0), (30, 0, 0, 0), (0, 0, 60, 0), (60, 30, 0, 0)):
+                        jobs.append((loads, dist, st, 3, '*', {'exited': True}))
         r2 = pool.map(part2, jobs, chunksize=4)
     n1 = sum(r[0] for r in r1)
     distinct = set()
